@@ -67,6 +67,9 @@ var interpretablePrefixes = []string{
 	"(reflect.Kind).String",
 	"(net/http.Header).", "net/http.CanonicalHeaderKey", "net/http.StatusText",
 	"(encoding/json.Delim).String", "(encoding/json.Number).",
+	"io.NopCloser", "(io.nopCloser).", "(io.nopCloserWriterTo).",
+	"github.com/labstack/echo/v4.NewHTTPError", "(*github.com/labstack/echo/v4.HTTPError).",
+	"(*net/http.Request).Context", "(*net/http.Request).WithContext",
 	"(*github.com/golang-jwt/jwt/v4.SigningMethodRSA).Alg", "(*github.com/golang-jwt/jwt/v4.SigningMethodHMAC).Alg",
 	"(*github.com/golang-jwt/jwt/v4.RegisteredClaims).Verify", "(github.com/golang-jwt/jwt/v4.RegisteredClaims).Verify",
 	"github.com/golang-jwt/jwt/v4.verifyAud", "github.com/golang-jwt/jwt/v4.verifyIss",
